@@ -38,6 +38,7 @@ def units(tier):
         for ei in range(0, len(exprs_for(slots()[si][2], tier)), 40):
             us.append({"kind": "slot", "slot": si, "from": ei, "to": ei + 40})
     us.append({"kind": "special"})
+    us.append({"kind": "history"})
     return us
 
 
@@ -452,8 +453,97 @@ def run_special(tier, r):
     r.sample({"special_shapes": [s[0] for s in shapes]})
 
 
+def history_family():
+    """name -> factory of a fresh construct, inputs, values. Members of one family have the same layout (possibly the same
+    generated source text) and differ in something the compiler links rather than prints, or in one printed constant"""
+    import construct as C
+    this = C.this
+
+    class AddN(C.Adapter):
+        def __init__(self, n, subcon):
+            super().__init__(subcon)
+            self.n = n
+        def _decode(self, obj, context, path):
+            return obj + self.n
+        def _encode(self, obj, context, path):
+            return obj - self.n
+
+    fam = {}
+    for k in (0, 3):
+        fam["rebuild-lambda+%d" % k] = (lambda k=k: C.Struct(C.Const(b"~"), "length" / C.Rebuild(C.Int16ub, lambda ctx: len(ctx.data) + k), "data" / C.Bytes(3), "after" / C.Byte),
+                                         [b"~\x00\x03abc\x09"], [dict(data=b"abc", after=9)])
+        fam["rebuild-expr+%d" % k] = (lambda k=k: C.Struct(C.Const(b"~"), "length" / C.Rebuild(C.Int16ub, C.len_(this.data) + k), "data" / C.Bytes(3), "after" / C.Byte),
+                                       [b"~\x00\x03abc\x09"], [dict(data=b"abc", after=9)])
+        fam["linked-adapter+%d" % k] = (lambda k=k: C.Struct("a" / AddN(k, C.Byte), "b" / C.Byte), [b"\x05\x06"], [dict(a=9, b=1)])
+        fam["default-%d" % k] = (lambda k=k: C.Struct("a" / C.Default(C.Byte, k), "b" / C.Byte), [b"\x05\x06"], [dict(b=1), dict(a=None, b=2)])
+        fam["const-%d" % k] = (lambda k=k: C.Struct("a" / C.Const(k, C.Byte), "b" / C.Byte), [bytes([k, 6]), b"\x05\x06"], [dict(b=1)])
+        fam["switch-%d" % k] = (lambda k=k: C.Struct("t" / C.Byte, "v" / C.Switch(this.t, {k: C.Int16ub, 7: C.Byte}, default=C.Pass)), [bytes([k, 1, 2]), b"\x07\x01", b"\x09"],
+                                 [dict(t=k, v=258), dict(t=7, v=1)])
+        fam["enum-%d" % k] = (lambda k=k: C.Struct("e" / C.Enum(C.Byte, a=k, b=k + 1)), [bytes([k]), bytes([k + 1]), b"\x09"], [dict(e="a"), dict(e="b"), dict(e=9)])
+        fam["padding-%d" % k] = (lambda k=k: C.Struct("a" / C.Byte, C.Padding(2, pattern=bytes([k])), "b" / C.Byte), [bytes([1, k, k, 2])], [dict(a=1, b=2)])
+        fam["expr-const-%d" % k] = (lambda k=k: C.Struct("n" / C.Byte, "d" / C.Bytes(this.n + k)), [b"\x01abcd", b"\x00abc"], [dict(n=1, d=b"x" * (1 + k))])
+        fam["computed-lambda-%d" % k] = (lambda k=k: C.Struct("n" / C.Byte, "c" / C.Computed(lambda ctx: ctx.n + k)), [b"\x01"], [dict(n=1)])
+        fam["checksum-%d" % k] = (lambda k=k: C.Struct("d" / C.RawCopy(C.Bytes(2)), "c" / C.Checksum(C.Byte, lambda b: (sum(b) + k) & 0xff, this.d.data)),
+                                   [bytes([1, 2, 3 + k])], [dict(d=dict(value=b"ab"))])
+    return fam
+
+
+def run_history(r, tier):
+    """every compile() history of length <= 2 over the family (all ordered pairs, a construct twice, a compiled instance
+    compiled again): each compiled instance must behave like the construct it was compiled from, whatever was compiled before,
+    and an earlier compiled instance is not disturbed by a later compile()"""
+    fam = history_family()
+    names = sorted(fam)
+    def diff(tag, name, d, dc, ins, vals, hist):
+        for x in ins:
+            r.states += 1
+            oc, vs = compare(["special", name], d, dc, x, KW, "history", {"history": hist, "subject": name, "data": x})
+            r.case(nontrivial=oc != "interp-rejects", outcome=oc, transitions=2, validated=1)
+            for v in vs:
+                v["sig"] = "C04/compile-history/" + v["sig"].split("/")[1]
+                v["detail"] = "after compile() history %s: %s" % (hist, v["detail"])
+                r.violation(v["sig"], v["case"], v["detail"])
+        for v in vals:
+            r.states += 1
+            ba, bb = do_build(d, v, KW), do_build(dc, v, KW)
+            r.case(nontrivial=ba[0] == "ok", outcome="build-" + ba[0], transitions=2, validated=1)
+            if ba[0] == "ok" and bb != ba:
+                r.violation("C04/compile-history/compiled-build-differs", {"history": hist, "subject": name, "value": repr(v), "op": "build"},
+                            "after compile() history %s: %s.build(%r): interpreter %s, compiled %r" % (hist, name, v, ba[1].hex(), bb[1].hex() if bb[0] == "ok" else bb))
+    for a in names:
+        for b in names:
+            if a.rsplit("-", 1)[0].rsplit("+", 1)[0] != b.rsplit("-", 1)[0].rsplit("+", 1)[0] and tier == "quick" and (names.index(a) + names.index(b)) % 3:
+                continue        # quick: all pairs within a family, a third of the cross-family pairs
+            A, insA, valsA = fam[a]
+            B, insB, valsB = fam[b]
+            da, db = A(), B()
+            ca, err = try_compile(da)
+            cb, err2 = try_compile(db)
+            if ca is None or cb is None:
+                r.extra["history-compile-refused"] += 1
+                continue
+            hist = [a, b]
+            diff("second", b, db, cb, insB, valsB, hist)
+            diff("first-after-second", a, da, ca, insA, valsA, hist)
+            cc, _ = try_compile(cb)
+            if cc is not None:
+                diff("recompiled", b, db, cc, insB, valsB, hist + ["compiled(%s)" % b])
+        # the same object compiled twice
+        A, insA, valsA = fam[a]
+        da = A()
+        c1, _ = try_compile(da)
+        c2, _ = try_compile(da)
+        if c1 is not None and c2 is not None:
+            diff("twice", a, da, c2, insA, valsA, [a, a + " (same object)"])
+            diff("twice-first", a, da, c1, insA, valsA, [a, a + " (same object)"])
+    r.sample({"compile_histories": "ordered pairs over %d family members + same object twice + compiled instance recompiled" % len(names)})
+
+
 def run_unit(unit, tier):
     r = UnitResult()
+    if unit["kind"] == "history":
+        run_history(r, tier)
+        return r
     if unit["kind"] == "terms":
         run_terms(unit, tier, r)
     elif unit["kind"] == "slot":
@@ -485,5 +575,8 @@ def replay(case):
             return []
         return compare(["host", slot[0], X.show(E)], d, dc, case["data"], KW, "%s(%s)" % (slot[0], expr_sig(E)), case)[1]
     r = UnitResult()
+    if "history" in case:
+        run_history(r, "thorough")
+        return [v for v in r.violations if v["case"].get("history") == case["history"] and v["case"].get("subject") == case.get("subject")]
     run_special("quick", r)
     return [v for v in r.violations if v["case"].get("special") == case.get("special")]
